@@ -169,6 +169,7 @@ type kernel struct {
 
 	steps, skipped int
 	oracleAt       *arrival
+	stop           atomic.Bool
 }
 
 func errClass(err error) string {
@@ -380,15 +381,23 @@ func (k *kernel) runProc(p string, ops []Op) {
 		fmt.Sscanf(p[1:], "%d", &ci)
 	}
 	for i, op := range ops {
+		if k.stop.Load() {
+			return
+		}
 		ctx := k.newProcCtx(p)
 		k.s.mu.Lock()
 		k.curOp[p] = i + 1
 		k.curKind[p] = op.Op
-		if op.V != nil {
-			k.curVal[ci] = *op.V
-		}
 		k.s.mu.Unlock()
 		k.s.Point(ctx, true, "op.pre", "op", op.Op, "n", i+1)
+		if k.stop.Load() {
+			return
+		}
+		if op.V != nil {
+			k.s.mu.Lock()
+			k.curVal[ci] = *op.V
+			k.s.mu.Unlock()
+		}
 		func() {
 			defer func() {
 				if r := recover(); r != nil {
@@ -516,7 +525,7 @@ func (k *kernel) onErr(ctx context.Context, err error, old, nw *HCfg) {
 // ---- enabledness --------------------------------------------------------
 
 func (k *kernel) jointEnabled(r string) bool {
-	return k.s.At("mon") == "mon.select" && k.s.At(r) == "rep.send.pre" && !k.ctxDone && len(k.ctl) == 0
+	return k.s.At("mon") == "mon.select" && k.s.At(r) == "rep.send.pre" && !k.ctxDone && len(k.ctl) == 0 && !k.cancelled[r]
 }
 
 func (k *kernel) enabled(g string) bool {
@@ -609,6 +618,14 @@ const watchdog = 10 * time.Second
 
 func (k *kernel) do(m move) error {
 	k.steps++
+	item := m.g
+	switch m.kind {
+	case "cancel":
+		item = "!" + m.g
+	case "joint":
+		item = "mon+" + m.g
+	}
+	k.s.Note("env", "move", "item", item)
 	switch m.kind {
 	case "cancel":
 		k.s.mu.Lock()
@@ -880,6 +897,7 @@ func runKernelScenario(sc Scenario, out *bufio.Writer) {
 
 	// teardown: cancel everything, open the gates, everything must exit
 	s.Note("env", "teardown")
+	k.stop.Store(true)
 	s.ungate()
 	for _, c := range k.procCancel {
 		c()
